@@ -9,8 +9,8 @@ open Zvbi.Gen.Cc
     (finding F19): a roll-up command, and a carriage return addressed to a channel in pop-on mode -/
 def silentCmd (s : St) (c1 c2 : Nat) (f2 : Bool) : Prop :=
   c2 < 0x40 ∧ (c1 &&& 7 = 4 ∨ c1 &&& 7 = 5) ∧
-  ((c2 &&& 15 = 5 ∨ c2 &&& 15 = 6 ∨ c2 &&& 15 = 7) ∨
-   (c2 &&& 15 = 13 ∧ ∃ ch, s.chans[cmdChan s c1 f2]? = some ch ∧ ch.mode = .popOn))
+  ((ruEraseRaisesEvent = false ∧ (c2 &&& 15 = 5 ∨ c2 &&& 15 = 6 ∨ c2 &&& 15 = 7)) ∨
+   (crPopOnNoUpdate = false ∧ c2 &&& 15 = 13 ∧ ∃ ch, s.chans[cmdChan s c1 f2]? = some ch ∧ ch.mode = .popOn))
 
 attribute [local irreducible] pac backgroundAttr specialChar midRow backspace deleteToEnd eraseDisplayed
   eraseNonDisplayed case7 carriageReturn rollUpCmd endOfCaption setCursor in
@@ -41,20 +41,32 @@ theorem captionCommand_evst {s : St} (h : Inv s) (c1 c2 : Nat) (f2 : Bool) (hq :
          | exact eraseNonDisplayed_ev hc
          | exact case7_ev hc _ _
          | (refine carriageReturn_ev hc _ ?_
-            intro hm
-            apply hq
-            exact ⟨by omega, by omega, Or.inr ⟨by assumption, ch, hget, hm⟩⟩)
+            by_cases hm : ch.mode = .popOn
+            · right
+              cases hfl : crPopOnNoUpdate
+              · exfalso; apply hq
+                exact ⟨by omega, by omega, Or.inr ⟨hfl, by assumption, ch, hget, hm⟩⟩
+              · rfl
+            · left; exact hm)
          | exact (Ev.scalar rfl rfl rfl rfl : Ev ch { ch with attr := _ }))
     | (refine (switchChannel_evst h hc9 _).trans (modCh_evst (switchChannel_inv h hc9 _) h3 ?_)
        intro ch _ hc
        first
          | exact endOfCaption_ev hc
-         | exact (Ev.scalar rfl rfl rfl rfl : Ev ch { ch with mode := _ }))
+         | exact (Ev.scalar rfl rfl rfl rfl : Ev ch { ch with mode := _ })
+         | (cases hfl : ruEraseRaisesEvent
+            · exfalso; apply hq; refine ⟨by omega, by omega, Or.inl ⟨hfl, ?_⟩⟩; omega
+            · exact rollUpCmd_ev _ hfl))
     | (refine (switchChannel_evst h hc9 _).trans (modCh_evst (switchChannel_inv h hc9 _) h4 ?_)
        intro ch _ hc
        exact setCursor_ev _ _ _)
-    | (exfalso; apply hq; refine ⟨by omega, by omega, Or.inl ?_⟩; omega)
 
+
+theorem not_silent_of_repairs (h1 : ruEraseRaisesEvent = true) (h2 : crPopOnNoUpdate = true)
+    (s : St) (c1 c2 : Nat) (f2 : Bool) : ¬ silentCmd s c1 c2 f2 := by
+  unfold silentCmd
+  rw [h1, h2]
+  simp
 
 theorem silentCmd_congr {s s' : St} (hc : s'.chans = s.chans) (hcur : s'.currChan = s.currChan) (c1 c2 : Nat) (f2 : Bool) :
     silentCmd s' c1 c2 f2 ↔ silentCmd s c1 c2 f2 := by
